@@ -282,9 +282,24 @@ func init() {
 		return fr.modelRead(args[1], pc, st, true)
 	}
 	// ---- context
-	stdModels["context.WithCancel"] = noop("context.WithCancel")
-	stdModels["context.WithTimeout"] = noop("context.WithTimeout")
-	stdModels["context.Background"] = noop("context.Background")
+	ctxModel := func(name string) stdModel {
+		return func(fr *Frame, fn *ssa.Function, args []Value, pc *Term, st *State, pos token.Pos, resT types.Type) callResult {
+			used(fr, name+" (returns a non-nil context and cancel function)")
+			v := fr.ex.freshResult(resT, "ctx", st, pc)
+			switch x := v.(type) {
+			case TupleV:
+				for _, e := range x.E {
+					fr.ex.assumeNonNil(e, pc)
+				}
+			default:
+				fr.ex.assumeNonNil(v, pc)
+			}
+			return callResult{val: v, st: st}
+		}
+	}
+	stdModels["context.WithCancel"] = ctxModel("context.WithCancel")
+	stdModels["context.WithTimeout"] = ctxModel("context.WithTimeout")
+	stdModels["context.Background"] = ctxModel("context.Background")
 }
 
 func ptrName(p Value) string {
